@@ -23,7 +23,7 @@ theorem loopDigits_neg (n : Nat) : ∀ (k : Nat) (d : α), d < 0 →
     rw [loopDigits_neg n k _ hneg]
 
 /-- for `x < 0` the image is the centre of the first cell (all digits `0`) -/
-theorem imageCube_neg {n : Nat} (hn : 2 ≤ n ∧ n ≤ 5) (m : Nat) (x : α) (h0 : x < 0) :
+theorem imageCube_neg {n : Nat} (hn : Ev.DimOK n) (m : Nat) (x : α) (h0 : x < 0) :
     imageCube n m x = (cubeY n (List.replicate m 0)).map
       (fun (Y : Int) => (Y : α) / 2^(m+1)) := by
   have hx : decide ((1 : α) ≤ x) = false := by
@@ -50,15 +50,15 @@ theorem validDigits_loopDigits (n m : Nat) (x : α) :
       exact validDigits_replicate (Nat.two_pow_pos n)
 
 /-- `imageCube` has `n` coordinates, each of absolute value `< 1/2`, for every `x` -/
-theorem imageCube_bound {n : Nat} (hn : 2 ≤ n ∧ n ≤ 5) (m : Nat) (x : α) :
+theorem imageCube_bound {n : Nat} (hn : Ev.DimOK n) (m : Nat) (x : α) :
     (imageCube n m x).length = n ∧ ∀ c ∈ imageCube n m x, |c| < 1 / 2 := by
   have hd := validDigits_loopDigits n m x
-  have hsl := signList_signs hn _ _ (Inv.valid_init n (by omega)) hd
+  have hsl := signList_signs hn _ _ (Inv.valid_init n hn.pos) hd
   rw [imageCube_eq hn m x hd]
   exact ⟨length_ptOf _ _ hsl, abs_ptOf_lt _ _ (by positivity) hsl⟩
 
 /-- `getImage` lies strictly inside the box, for every `x` -/
-theorem getImage_in_box {n : Nat} (hn : 2 ≤ n ∧ n ≤ 5) (m : Nat) (lower upper : List α)
+theorem getImage_in_box {n : Nat} (hn : Ev.DimOK n) (m : Nat) (lower upper : List α)
     (hl : lower.length = n) (hu : upper.length = n)
     (hlt : ∀ i (h1 : i < lower.length) (h2 : i < upper.length), lower[i] < upper[i]) (x : α) :
     (getImage n m lower upper x).length = n ∧
@@ -74,7 +74,7 @@ theorem getImage_in_box {n : Nat} (hn : 2 ≤ n ∧ n ≤ 5) (m : Nat) (lower up
   exact p2d_coord_in _ _ _ (hlt i h1 h2) (hb _ (List.getElem_mem hy))
 
 /-- end-to-end round trip on the box -/
-theorem getInverseImage_getImage {n : Nat} (hn : 2 ≤ n ∧ n ≤ 5) (m : Nat) (lower upper : List α)
+theorem getInverseImage_getImage {n : Nat} (hn : Ev.DimOK n) (m : Nat) (lower upper : List α)
     (hl : lower.length = n) (hu : upper.length = n)
     (hne : ∀ i (h1 : i < lower.length) (h2 : i < upper.length), lower[i] ≠ upper[i]) (x : α) :
     getInverseImage n m lower upper (getImage n m lower upper x) =
@@ -114,7 +114,7 @@ theorem d2p_in_cube {n : Nat} (lower upper y : List α)
 
 /-- end-to-end (7): for a box point `y`, `getImage (getInverseImage y)` is within half a cell
 width (scaled to the box) of `y` in every coordinate -/
-theorem getImage_getInverseImage_close {n : Nat} (hn : 2 ≤ n ∧ n ≤ 5) (m : Nat)
+theorem getImage_getInverseImage_close {n : Nat} (hn : Ev.DimOK n) (m : Nat)
     (lower upper y : List α) (hl : lower.length = n) (hu : upper.length = n) (hy : y.length = n)
     (hlt : ∀ i (h1 : i < lower.length) (h2 : i < upper.length), lower[i] < upper[i])
     (hin : ∀ i (h0 : i < y.length) (h1 : i < lower.length) (h2 : i < upper.length),
